@@ -121,7 +121,7 @@ macro_rules! alloc_step {
 // @harness c08_alloc_step_o4
 // @props C08 C03 C18
 // @tier quick
-// @cost 200
+// @cost 232
 // @timeout 1500
 // @needs A1
 // @desc one allocator step (whole body of try_alloc_from_rb_slice, lock and cache lookup shimmed) from an ARBITRARY refcount slice state at 16-bit refcounts: the run returned is contiguous, inside the slice, at or after the requested position, 1 <= n <= count (n == count when fixed_start), every cluster in it had refcount 0 before and 1 after, no other counter changes, the slice is marked dirty and need_flush set; a request crossing the slice end is refused without any change; None leaves everything untouched
@@ -258,7 +258,7 @@ macro_rules! free_step {
 // @harness c08_free_step_o4
 // @props C08 C03 C18
 // @tier quick
-// @cost 200
+// @cost 178
 // @timeout 1500
 // @needs A0
 // @desc one free step (whole body of free_clusters, lock and cache lookup shimmed) from an arbitrary refcount slice state at 16-bit refcounts: every cluster of the run loses exactly one reference, no other counter changes, the slice is marked dirty and need_flush set, the allocation hint never moves up and becomes min(old hint, first cluster whose count reached 0)
